@@ -12,6 +12,19 @@ C = 'histories: BFS over operation sequences against a model of the global gener
 
 # id -> (engine, technique, level text, level note, design ref)
 CHECKS = {
+    'C05': ('histories', 'explicit-state BFS over operation histories on the real library against a mirror model of the global generator + scripted-generator path exploration with global-state snapshots',
+            'For every public callable with a seed parameter (found by introspection; 38 functions, 1-2 argument tuples): all operation sequences up to '
+            'depth 4 (5 thorough) over {seed global 0/1, global draw, call(seed=int 0/1), call(seed=RandomState 0/1), unseeded call}, states deduplicated '
+            'by the global generator state: seeded calls return one result per seed whatever the history and seed kind and leave numpy\'s and Python\'s '
+            'global generators bit-identical; an unseeded call equals the same call on a mirror of the global generator and advances it identically. '
+            'In addition the first 300 (3000) generator-answer paths of each function are run with a global-state snapshot around every execution.',
+            'trusted: mirror RandomState as model of the global stream; argument tuples in bctmc/seedtable.py; engine A part bounded by an execution cap', 'DESIGN.md sections 3, 4 C05'),
+    'C19': ('rngmc', 'exploration of EVERY subject relabelling (full permutation menu / all sign patterns) per configuration + bounded-exhaustive invariance checks',
+            'nbs_bct on all 125 (216 paired) profile assignments of 3-node designs x group sizes x threshold x tail (and a 4-node set): for every '
+            'relabelling the generator can answer, adj marks exactly the suprathreshold connections labelled by component (t statistics and components '
+            're-derived), one p-value per component equal to the fraction of returned null values >= its size, and every null value equals the largest '
+            'component size recomputed for the relabelling that was scripted; observed components invariant under group swap+tail and subject reordering.',
+            'trusted: t statistics written from their definitions in checks/c19.py; paired sign flips represented by 0.25/0.75', 'DESIGN.md section 4 C19'),
     'C02': ('rngmc', 'explicit-state exploration of ALL node visiting orders at every sweep (n! menu, states merged at sweep starts) + bounded-exhaustive enumeration for the deterministic routines',
             'community_louvain (4 objectives), modularity_louvain_und/_dir/_und_sign, modularity_finetune_und/_dir/_und_sign, '
             'modularity_probtune_und_sign on small graphs x gamma {1,1.25} x qtypes x initial partitions x hierarchy: for every reachable outcome the '
